@@ -1,10 +1,70 @@
 import CueVerif.Driver.Proto
+import CueVerif.Model.Yaml
 namespace CueVerif.Driver.C11
-open CueVerif CueVerif.Driver
+open CueVerif CueVerif.Driver CueVerif.Yaml
+
+def tokOf (c : Char) : Option Tok :=
+  match c with
+  | 's' => some .str | 'b' => some .bool | 'n' => some .null | 'i' => some .implicitNull
+  | 'f' => some .inf | 'a' => some .nan | 'm' => some .merge | 'd' => some .int
+  | 'e' => some .float | 'q' => some .quoted | 'o' => some .other
+  | _ => none
+
+/-- `<single><type letter><same>` e.g. `1s1` -/
+def parseLex (w : String) : Option Lex :=
+  match w.toList with
+  | [a, t, c] => (tokOf t).map fun ty => { single := a == '1', ty := ty, same := c == '1' }
+  | _ => none
+
+def styleStr : Style → String
+  | .plain => "plain" | .single => "single" | .double => "double" | .literal => "literal"
+
+def classStr : Class → String
+  | .null => "null"
+  | .bool v => "bool " ++ boolStr v
+  | .int l => "int " ++ hex l
+  | .float l => "float " ++ hex l
+  | .numberAnd l => "number& " ++ hex l
+  | .str s => "str " ++ hex s
+  | .err => "err"
+  | .other => "other"
+
+def reOf (n : String) : Option RE :=
+  if n == "useQuote" then some reUseQuote
+  else if n == "rxAnyOctalYaml11" then some reAnyOctal
+  else if n == "rxYamlInt" then some reYamlInt
+  else if n == "rxYamlFloat" then some reYamlFloat
+  else none
 
 /-- protocol handler for C11: words of one op line (after the property id) → answer -/
 def handle (ws : List String) : String :=
   match ws with
+  | ["style", pos, s, multi, lex, libq] =>
+    match unhex s, parseLex lex with
+    | some bs, some lx =>
+      if pos == "v" then styleStr (valueStyle lx (libq == "1") bs (multi == "1"))
+      else if pos == "k" then styleStr (keyStyle lx (libq == "1") bs)
+      else "bad-op"
+    | _, _ => "bad-op"
+  | ["style3", _, s] =>
+    match unhex s with
+    | some bs => if shouldQuoteV3 bs then "double" else "other"
+    | none => "bad-op"
+  | ["classify", t, v] =>
+    match t.toList, unhex v with
+    | [c], some bs => match tokOf c with
+      | some ty => classStr (decodeScalar ty bs)
+      | none => "bad-op"
+    | _, _ => "bad-op"
+  | ["re", n, s] =>
+    match reOf n, unhex s with
+    | some r, some bs => boolStr (r.matches bs)
+    | _, _ => "bad-op"
+  | ["block", ind, s] =>
+    -- what a YAML parser reads back from the literal block the emitter writes for s
+    match ind.toNat?, unhex s with
+    | some n, some bs => let e := emitBlock n bs; hex (parseBlock e.1 e.2)
+    | _, _ => "bad-op"
   | _ => "bad-op"
 
 end CueVerif.Driver.C11
